@@ -576,8 +576,13 @@ func Mutate(t *rapid.T, m *Mined, inst *Instance, label string) string {
 	}
 	visit(reflect.ValueOf(inst.Node), false)
 	// metavariable-specific mutations
-	for name, f := range inst.Binding {
-		name, f := name, f
+	var bound []string
+	for name := range inst.Binding {
+		bound = append(bound, name)
+	}
+	sort.Strings(bound) // draws happen inside the loop: keep their order a function of the seed
+	for _, name := range bound {
+		name, f := name, inst.Binding[name]
 		occ := 0
 		var occs []Slot
 		WalkSlots(inst.Node, func(s Slot) bool {
